@@ -11,3 +11,4 @@ import SpoxModel.Props.C14
 #print axioms C14.imports_agree_with_model
 #print axioms C14.function_sem
 #print axioms C14.function_sem_rejects
+#print axioms C14.coarse_comparison_merges
